@@ -69,6 +69,10 @@ impl Resolver {
             Namespace::Quantity => &[Namespace::Quantity],
             _ => &[Namespace::Unit, Namespace::Prefix, Namespace::Quantity],
         };
+        // A unit and a prefix (or a quantity) may share a name, and which of
+        // them is meant depends on where the name is used: all of them are
+        // ordered before the definition that mentions it.
+        let mut found = false;
         for namespace in to_check.iter().copied() {
             let id = Id {
                 namespace,
@@ -76,10 +80,10 @@ impl Resolver {
             };
             if self.input.contains_key(&id) {
                 self.visit(&id);
-                return true;
+                found = true;
             }
         }
-        false
+        found
     }
 
     fn lookup_with_prefix(&mut self, name: &Rc<String>, context: Namespace) -> bool {
